@@ -916,6 +916,8 @@ def r11_junit_text_xml_safe(chk: Check) -> None:
         return False
 
     sanitizers = {f.name for f in P.all_functions() if not isinstance(f.node, ast.Lambda) and is_xml_sanitizer(f)}
+    # functions that delete characters by a literal class but do not cover what XML forbids: an incomplete sanitizer
+    partial_ = {f.name for f in mod.functions.values() if not isinstance(f.node, ast.Lambda) and f.name not in sanitizers and literal_patterns(f)}
     n = 0
     for fn in mod.functions.values():
         if isinstance(fn.node, ast.Lambda):
@@ -930,8 +932,15 @@ def r11_junit_text_xml_safe(chk: Check) -> None:
                 construct = f"{fn.qualname.partition(':')[2]}: {last_attr(c)}({kw.arg}=...) is XML-safe"
                 forms = canon(fn, kw.value)
                 wrapped = any(isinstance(x, ast.Call) and last_attr(x) in sanitizers and is_within(kw.value, x) is False for f_ in forms for x in [ast.parse(f_, mode="eval").body]) if sanitizers else False
+                other_repo_call = isinstance(kw.value, ast.Call) and (lambda r_: bool(r_) and r_[0] == "func")(P.resolve_call(fn, kw.value)) and last_attr(kw.value) not in sanitizers and last_attr(kw.value) not in ("format", "join")
                 if wrapped:
                     chk.ok("C16.R11", fn, construct, "passes through " + ", ".join(sorted(sanitizers)), fn.loc(c))
+                elif other_repo_call and last_attr(kw.value) in partial_:
+                    chk.violation("C16.R11", fn, construct,
+                                  f"`{unparse(kw.value.func)}` deletes characters by a literal class that does not match all of U+FFFE, U+FFFF, a surrogate and a C0 control: a response body with the uncovered character still makes the pretty-printing re-parse raise ExpatError",  # type: ignore[attr-defined]
+                                  fn.loc(c))
+                elif other_repo_call:
+                    chk.undecided("C16.R11", fn, construct, f"passes through `{unparse(kw.value.func)}`, which is not recognised as an XML sanitizer", fn.loc(c))  # type: ignore[attr-defined]
                 else:
                     chk.violation("C16.R11", fn, construct,
                                   f"`{unparse(kw.value, 60)}` reaches junit_xml as it is: a failing response whose body contains U+FFFE / U+FFFF (valid UTF-8: `\\xef\\xbf\\xbe`) makes `to_xml_report_file(..., prettyprint=True)` raise `ExpatError: reference to invalid character number` - the handler exception ends the run and junit.xml stays empty",
